@@ -146,7 +146,7 @@ def load(filename):
         BlackbirdProgram: parsed representation of the program
     """
     cwd = os.path.dirname(filename)
-    data = antlr4.FileStream(filename)
+    data = antlr4.FileStream(filename, encoding="utf-8")
     return parse(data, cwd=cwd)
 
 
